@@ -1,8 +1,8 @@
 package props
 
 import (
-	"encoding/base64"
 	"context"
+	"encoding/base64"
 	"fmt"
 	"strings"
 	"sync"
@@ -259,6 +259,7 @@ func c06List(tier string, seed int64) []c06Case {
 	add("directed-reset-after-handler-returned", 1000, tierN(tier, 12, 120))
 	add("directed-open-on-ended-context", 1000, tierN(tier, 16, 160))
 	add("directed-refused-open", 1000, tierN(tier, 8, 80))
+	add("directed-bodies-after-server-deadline", 1000, tierN(tier, 4, 40))
 	return out
 }
 
@@ -487,6 +488,71 @@ func c06OpenOnEndedContext(tier string, seed int64, idx int) *core.Result {
 	return res
 }
 
+// c06BodiesAfterDeadline: a raw stream open carrying a short grpc-timeout; its handler is busy
+// past that deadline (it does not watch its context) while the peer, who cannot know, sends three
+// more bodies. The stream is still open on the server: nothing is emitted for it until the handler
+// returns, and then a trailer - no reset for a stream the server still knows.
+func c06BodiesAfterDeadline(tier string, seed int64, idx int) *core.Result {
+	res := &core.Result{Verdict: core.Held}
+	h := bed.NewHooks()
+	h.Install()
+	b := bed.New(bed.Opts{Cap: 4, Serialise: idx%2 == 0})
+	gate := make(chan struct{})
+	entered := make(chan struct{}, 1)
+	b.Impl.DefS = func(t, k string, ss grpc.ServerStream) error {
+		entered <- struct{}{}
+		<-gate
+		return nil
+	}
+	svc.Invoke(context.Background(), b.Conns[0], fmt.Sprintf("bad-before%d", idx), []byte("x"))
+	const id = 1 << 31
+	hd := func() *goatorepo.RequestHeader {
+		return &goatorepo.RequestHeader{Method: []string{svc.MBidi, svc.MClient}[idx%2], Source: "c0", Destination: "srv"}
+	}
+	open := &wire.Rpc{Id: id, Header: hd()}
+	open.Header.Headers = []*goatorepo.KeyValue{{Key: "grpc-timeout", Value: "20m"}}
+	write := func(e *wire.Rpc) {
+		done := make(chan error, 1)
+		go func() { done <- b.Links[0].A.Write(context.Background(), e) }()
+		settle(tier, func() bool { return len(done) > 0 })
+	}
+	write(open)
+	select {
+	case <-entered:
+	case <-time.After(5 * time.Second):
+		res.Verdict, res.Note = core.Inconclusive, "handler did not start"
+		close(gate)
+		finish(tier, b, h, res)
+		return res
+	}
+	time.Sleep(120 * time.Millisecond) // the 20 ms deadline has passed on the server
+	body, _ := proto.Marshal(&svc.BV{Value: []byte("late")})
+	for k := 0; k < 3; k++ {
+		write(&wire.Rpc{Id: id, Header: hd(), Body: &goatorepo.Body{Data: body}})
+	}
+	quiet(tier)
+	close(gate)
+	quiet(tier)
+	res.Stat("bodies_after_server_deadline", 1)
+	nReset, nTrailer := 0, 0
+	for _, e := range b.Links[0].Tap.Log() {
+		if e.Dir == 1 && e.Rpc.GetId() == id {
+			if e.Rpc.GetReset_() != nil {
+				nReset++
+			}
+			if e.Rpc.GetTrailer() != nil && e.Rpc.GetReset_() == nil {
+				nTrailer++
+			}
+		}
+	}
+	if nReset > 0 {
+		res.Violate("server-resets-a-stream-it-still-knows", "the handler of stream %d was still running (past its 20 ms deadline) when three more bodies arrived: the server emitted %d reset(s) for the stream and then %d trailer(s)", id, nReset, nTrailer)
+	}
+	svc.Invoke(context.Background(), b.Conns[0], fmt.Sprintf("bad-after%d", idx), []byte("x"))
+	finish(tier, b, h, res)
+	return res
+}
+
 // c06RefusedOpen: a stream open the server must refuse (undecodable request metadata), written
 // raw onto a live connection next to ordinary traffic. The server's whole history for that id is
 // one reset: no handler runs, nothing else is emitted.
@@ -632,6 +698,8 @@ func c06Run(tier string, seed int64, idx int) *core.Result {
 		sub = c06OpenOnEndedContext(tier, seed, c.Index)
 	case "directed-refused-open":
 		sub = c06RefusedOpen(tier, seed, c.Index)
+	case "directed-bodies-after-server-deadline":
+		sub = c06BodiesAfterDeadline(tier, seed, c.Index)
 	case "C01":
 		sub = c01Run(tier, seed, c.Index)
 	case "C02":
@@ -653,7 +721,7 @@ func c06Run(tier string, seed int64, idx int) *core.Result {
 	}
 	// each check reports only its own property: what the workload's own oracle found is not C06's business
 	for k, v := range sub.Stats {
-		if k == "send_parked_across_cancel" || k == "unary_deadline_in_handler" || k == "cancel_during_open_write" || k == "reset_after_handler_returned" || k == "open_on_ended_context" || k == "refused_opens" {
+		if k == "send_parked_across_cancel" || k == "unary_deadline_in_handler" || k == "cancel_during_open_write" || k == "reset_after_handler_returned" || k == "open_on_ended_context" || k == "refused_opens" || k == "bodies_after_server_deadline" {
 			res.Stat(k, v)
 		}
 	}
@@ -696,11 +764,11 @@ func init() {
 	core.Register(&core.Prop{
 		ID:    "C06",
 		Level: "exploration",
-		Rule:  "trace checking: a fixed-seed sample of the C01, C02, C03 (matrix and race families), C07 and C11 case lists (quick ~850 cases, thorough ~11 500) is re-run and every client link's tap log is projected per (id, direction) and fed to the protocol automata (stream open / body* / trailer+status / resets; unary exactly one request and one response; constant and swapped header fields; metadata only on the first response; server emits only for received ids; server reset only after a body and never before the trailer; end-of-history rules: stream handler returned, no client reset, connection alive => trailer; unary handler returned, connection alive => one response; a client reset is never the first envelope of an id), plus directed families: a send parked across a cancel, a unary deadline expiring inside the handler, a cancel while the opening envelope is inside the transport Write, a client reset reaching the server after the handler returned (trailer held in the writer), a call started on a context that has already ended, a raw stream open with undecodable metadata next to ordinary traffic (the server answers with exactly one reset). evaluations = workload cases; non-trivial = the case's wire history contains a reset or a non-OK trailer; distinct = distinct (workload, index).",
+		Rule:  "trace checking: a fixed-seed sample of the C01, C02, C03 (matrix and race families), C07 and C11 case lists (quick ~850 cases, thorough ~11 500) is re-run and every client link's tap log is projected per (id, direction) and fed to the protocol automata (stream open / body* / trailer+status / resets; unary exactly one request and one response; constant and swapped header fields; metadata only on the first response; server emits only for received ids; server reset only after a body and never before the trailer; end-of-history rules: stream handler returned, no client reset, connection alive => trailer; unary handler returned, connection alive => one response; a client reset is never the first envelope of an id), plus directed families: a send parked across a cancel, a unary deadline expiring inside the handler, a cancel while the opening envelope is inside the transport Write, a client reset reaching the server after the handler returned (trailer held in the writer), a call started on a context that has already ended, a raw stream open with undecodable metadata next to ordinary traffic (the server answers with exactly one reset), bodies arriving after the server-side deadline of a stream whose handler is still running (no reset for a stream the server still knows). evaluations = workload cases; non-trivial = the case's wire history contains a reset or a non-OK trailer; distinct = distinct (workload, index).",
 		Plan:  func(tier string, seed int64) int { return len(c06List(tier, seed)) },
 		Run:   c06Run,
 		RequiredStats: func(string) []string {
-			return []string{"projections", "projections_with_reset_or_error", "handler_returns_checked", "envelopes", "send_parked_across_cancel", "unary_deadline_in_handler", "cancel_during_open_write", "reset_after_handler_returned", "open_on_ended_context", "refused_opens"}
+			return []string{"projections", "projections_with_reset_or_error", "handler_returns_checked", "envelopes", "send_parked_across_cancel", "unary_deadline_in_handler", "cancel_during_open_write", "reset_after_handler_returned", "open_on_ended_context", "refused_opens", "bodies_after_server_deadline"}
 		},
 		Assumptions: []string{"the automata are transcribed from README.md and the property statement", "only client-side links are checked (one client = one id space)"},
 	})
